@@ -18,6 +18,12 @@ func init() {
 		{Name: "x64 br_table pops the carried results before locating them", File: "internal/native/wat2x64/func.go", Old: "\t\t\t// 和 br 指令一样, 返回值保留在栈上: 每个分支按栈顶位置搬运, block 结束时统一重置栈\n", New: "\t\t\tfor k := len(defaultScopeContex.Result) - 1; k >= 0; k-- {\n\t\t\t\tstk.Pop(defaultScopeContex.Result[k])\n\t\t\t}\n", Expect: "branch-arm-model-balance :: wat2x64 INS_BR_TABLE"},
 		{Name: "riscv br_table pops the carried results before locating them", File: "internal/native/wat2rv/func.go", Old: "\t\t\t// 和 br 指令一样, 返回值保留在栈上: 每个分支按栈顶位置搬运, block 结束时统一重置栈\n", New: "\t\t\tfor k := len(defaultScopeContex.Result) - 1; k >= 0; k-- {\n\t\t\t\tstk.Pop(defaultScopeContex.Result[k])\n\t\t\t}\n", Expect: "carried-results-located :: wat2rv INS_BR_TABLE"},
 		{Name: "loong64 br_table demands two labels", File: "internal/native/wat2la/func.go", Old: "\t\tassert(len(i.XList) >= 1)\n", New: "\t\tassert(len(i.XList) > 1)\n", Expect: "br-table-accepts-default-only :: wat2la"},
+		{Name: "x64 f32.min does not merge the two orders", File: "internal/native/wat2x64/func.go", Old: "\t\tfmt.Fprintf(w, \"    orps xmm4, xmm6 # +0/-0\\n\")\n", New: "", Expect: "x64-minmax-semantics :: f32.min"},
+		{Name: "x64 f64.max merges the two orders with or", File: "internal/native/wat2x64/func.go", Old: "\"    andpd xmm4, xmm6 # +0/-0\\n\"", New: "\"    orpd xmm4, xmm6 # +0/-0\\n\"", Expect: "x64-minmax-semantics :: f64.max"},
+		{Name: "x64 f32.max answers the second operand for a NaN", File: "internal/native/wat2x64/func.go", Old: "\t\tfmt.Fprintf(w, \"    ucomiss xmm4, xmm5\\n\")\n\t\tfmt.Fprintf(w, \"    jp   %s # NaN\\n\", labelNaN)\n\t\tfmt.Fprintf(w, \"    movaps xmm6, xmm5\\n\")\n\t\tfmt.Fprintf(w, \"    maxss xmm6, xmm4\\n\")", New: "\t\tfmt.Fprintf(w, \"    ucomiss xmm4, xmm5\\n\")\n\t\tfmt.Fprintf(w, \"    movaps xmm6, xmm5\\n\")\n\t\tfmt.Fprintf(w, \"    maxss xmm6, xmm4\\n\")", Expect: "x64-minmax-semantics :: f32.max"},
+		{Name: "x64 memory.init comment swallows the next instruction", File: "internal/native/wat2x64/func.go", Old: "fmt.Fprintf(w, \"    # memory.init\\n\")", New: "fmt.Fprintf(w, \"    # memory.init\")", Expect: "line-terminated :: wat2x64 wat2X64Worker.buildFunc_ins"},
+		{Name: "x64 select loses the newline after its last store", File: "internal/native/wat2x64/func.go", Old: "\t\tdefault:\n\t\t\tunreachable()\n\t\t}\n\t\tfmt.Fprintln(w)\n\n\tcase token.INS_LOCAL_GET:", New: "\t\tdefault:\n\t\t\tunreachable()\n\t\t}\n\n\tcase token.INS_LOCAL_GET:", Expect: "line-terminated :: wat2x64 wat2X64Worker.buildFunc"},
+		{Name: "loong64 table offset comment swallows the ori", File: "internal/native/wat2la/table.go", Old: "\"    lu12i.w   $t1, 0x%X # offset\\n\"", New: "\"    lu12i.w   $t1, 0x%X\\n # offset\"", Expect: "line-terminated :: wat2la wat2laWorker.buildTable"},
 		{Name: "x64 locals zeroed with a dword store", File: "internal/native/wat2x64/func.go", Old: "mov qword ptr [rbp%+d], 0 # local %s = 0", New: "mov dword ptr [rbp%+d], 0 # local %s = 0", Expect: "x64-local-init-width"},
 		{Name: "x64 element offset not scaled", File: "internal/native/wat2x64/table.go", Old: "off := (int(elem.Offset) + j) * IntSize", New: "off := int(elem.Offset) + j*IntSize", Expect: "x64-elem-offset-scaled"},
 		{Name: "x64 memory-return prologue stores rcx under every ABI", File: "internal/native/wat2x64/func.go", Old: "fnNative.Type.Return[1].Reg == 0 && p.cpuType == abi.X64Windows {", New: "fnNative.Type.Return[1].Reg == 0 {", Expect: "x64-caller-area-store-abi"},
@@ -260,6 +266,16 @@ func x64CoreOp(m string) (require []string, forbid []string) {
 		}
 		fb = append(fb, a+other)
 		sort.Strings(fb)
+		if a == "min" || a == "max" {
+			// the NaN path adds the operands (x64-minmax-semantics decides what the sequence computes)
+			var keep []string
+			for _, o := range fb {
+				if o != "add"+fs {
+					keep = append(keep, o)
+				}
+			}
+			fb = keep
+		}
 		return []string{a + fs}, fb
 	}
 	switch op {
@@ -362,6 +378,22 @@ func runC02(c *Ctx) {
 		}
 	}
 	c.Min("overlap-copy-direction", "result-moving loops of the native translators", nCopy, 12)
+	nLines := 0
+	for _, tr := range translators {
+		if pk := p.Pkg(tr.pkg); pk != nil && tr.name != "wat2c" {
+			nLines += lineTerminatedRule(c, p, pk, tr.name+" ", lineAsm)
+		}
+	}
+	c.Min("line-terminated", "functions of the native translators that write assembler text", nLines, 40)
+	nSlots, nMove := 0, 0
+	for _, tr := range translators {
+		if pk := p.Pkg(tr.pkg); pk != nil && tr.name != "wat2c" {
+			nSlots += slotNumberNotValue(c, p, pk, tr.name+" ")
+			nMove += nativeMemoryCopyOverlap(c, p, pk, tr.name)
+		}
+	}
+	c.Min("slot-number-not-value", "functions of the native translators that hold slot numbers", nSlots, 8)
+	c.Min("memory-copy-overlap", "memory.copy arms of the native translators", nMove, 4)
 	nLocated, nBalance, nDefault := 0, 0, 0
 	for _, tr := range translators {
 		if pk := p.Pkg(tr.pkg); pk != nil && tr.name != "wat2c" {
@@ -383,6 +415,9 @@ func runC02(c *Ctx) {
 	c02MemoryGrowLimit(c, p, x64)
 	c02ImmEncodable(c, p, x64, ins)
 	c02RemGuard(c, p, x64)
+	if pk := p.Pkg("internal/native/wat2x64"); pk != nil {
+		c02MinMax(c, p, pk)
+	}
 	c02Locals(c, p)
 	if pk := p.Pkg("internal/native/wat2x64"); pk != nil {
 		c02CallPaths(c, p, pk)
